@@ -552,7 +552,7 @@ def _term_local(bf, local, depth, seen):
         return ('other', rv.d.get('s'))
     if kind == 'call':
         t = obj
-        c = strip_generics(t.callee_res() or t.callee() or '?')
+        c = strip_generics(t.callee_best() or '?')
         return ('call', c, tuple(_term_operand(bf, a, depth + 1, seen) for a in t.args), bb)
     return ('phi', local)
 
